@@ -356,6 +356,8 @@ def run_api(case, st):
             elif name == 'verb':
                 ctx.setVerbatimCatcodes()
                 defined_or_cat = True
+                # the characters whose category the verbatim table changes are watched from here on (also across later pushes and pops)
+                chars_seen.update('\\{%$ ')
         except common.CaseTimeout:
             raise
         except Exception as e:
